@@ -573,7 +573,7 @@ def make_gadget(rng, gid, k, profile, force=None):
     # negatives
     p_neg = 0.35 if profile == "c10" else 0.7
     if rng.random() < p_neg:
-        what = rng.choice(["broken", "broken", "twist", "rule", "rule"]) if profile == "c11" else rng.choice(["broken", "twist", "rule", "rule"])
+        what = rng.choice(["broken", "broken", "twist", "twist", "rule", "rule"]) if profile == "c11" else rng.choice(["broken", "twist", "rule", "rule"])
         if what == "broken":
             kind = rng.choice(BROKEN)
             chain.insert(rng.randrange(len(chain) + 1), ["broken", kind])
@@ -584,7 +584,7 @@ def make_gadget(rng, gid, k, profile, force=None):
         else:
             side = rng.choice(["src_mode", "snk_mode"])
             g[side] = rng.choice(["ext", "ext", "never", "away:line", "away:unit", "away:language"])
-            if (side == "src_mode" and sk == "param" or side == "snk_mode" and tk == "mcall") and rng.random() < 0.35:
+            if (side == "src_mode" and sk == "param" or side == "snk_mode" and tk == "mcall") and rng.random() < 0.7:
                 g[side] = "away:operation"
     else:
         r = rng.random()
